@@ -562,9 +562,19 @@ func (f *nativeFuncObject) defaultConstruct(ccall func(ConstructorCall) *Object,
 
 func (f *nativeFuncObject) assertCallable() (func(FunctionCall) Value, bool) {
 	if f.f != nil {
-		return f.f, true
+		return f.callFromGo, true
 	}
 	return nil, false
+}
+
+// callFromGo is how Go code (another built-in, the host) calls a native function: no script frame is pushed, but
+// the call counts towards the call depth limit, so that a cycle made of native functions only (Error.prototype.toString
+// of an error whose name is the error itself, ...) ends with a StackOverflowError instead of exhausting the Go stack.
+func (f *nativeFuncObject) callFromGo(call FunctionCall) Value {
+	vm := f.val.runtime.vm
+	vm.enterNative()
+	defer vm.leaveNative()
+	return f.f(call)
 }
 
 func (f *nativeFuncObject) vmCall(vm *vm, n int) {
